@@ -158,3 +158,92 @@ Theorem C18_close_rmn : forall evs evs', phase (rmn_run evs) <> 0%N ->
   ready (rmn_run (evs ++ [EClose])) = false /\ views (rmn_run (evs ++ [EClose])) = views (rmn_run evs).
 Proof. exact rmn_close_stops. Qed.
 Print Assumptions C18_close_rmn.
+
+(* ===================================================================================================================
+   Lock level ("for all interleavings ... without data races"), Model/Locks.v + Proofs/LocksP.v.
+   Above, setState and a getter are single events.  Here they are what the source says they are: sequences of
+   Lock / RLock / Unlock / RUnlock operations and individual field reads and writes, run by any number of goroutines
+   under an arbitrary scheduler, over one sync.RWMutex (a writer excludes everybody, readers exclude writers, an
+   acquisition that cannot be granted blocks).  Every Lock() draws a fresh version; a write stores the version of the
+   write section it happens in; a read records which version it saw.
+   The action programs of the real methods are extracted from the Go sources on every run (/verif/locks ->
+   Gen/LocksGen.v) and checked in coq/GenEquiv/C18_locks_gen.v (C18_home_poller_well_locked,
+   C18_rmn_poller_well_locked, C18_snapshot_all_interleavings_gen, C18_rmn_snapshot_all_interleavings_gen).
+   =================================================================================================================== *)
+Require Import Verif.Model.Locks Verif.Proofs.LocksP.
+
+(* The general theorem, for all programs: if every thread runs a program that passes the syntactic check
+   (label true = the strict check well_locked, label false = the lock discipline locks_ok only), then in every
+   reachable state of every interleaving [locks_safe] holds:
+     - no Unlock / RUnlock of an unlocked mutex;
+     - no data race (never two threads about to access one field, one of them writing);
+     - outside write sections all fields of a group carry ONE version (a writer replaces a group completely or not
+       at all: readers can only ever find whole snapshots);
+     - every strictly checked thread has, per group, seen fields of ONE version only - never a mixture;
+     - when all threads have returned the mutex is free;
+     - whenever the mutex is held - in particular whenever a thread waits for it - some thread can take a step and
+       is not about to wait on a channel or WaitGroup (no deadlock out of the lock operations themselves). *)
+Theorem C18_locks_all_interleavings : forall lay (lps : list (bool * prog)) s,
+  (forall b p, In (b, p) lps -> checked b lay p = true) ->
+  reachable (init (map (fun lp => (fst lp, desugar lay (snd lp))) lps)) s -> locks_safe lay s.
+Proof. exact locks_programs. Qed.
+Print Assumptions C18_locks_all_interleavings.
+
+(* hypotheses met by concrete programs (a two-field writer, two readers - field by field and by struct copy -, a
+   poll loop with a counter), and a complete concurrent run of writer and reader *)
+Example C18_locks_nonvacuous :
+  well_locked lay2 w_good = true /\ well_locked lay2 r_good = true /\ well_locked lay2 r_copy = true /\
+  well_locked lay3 p_loop = true /\
+  exists s, reachable (init [(true, desugar lay2 w_good); (true, desugar lay2 r_good)]) s /\
+            (forall t, In t (st_ths s) -> finished t) /\
+            exists t, In t (st_ths s) /\ lookup 1%N (t_obs t) = Some 1%N /\ lookup 2%N (t_obs t) = Some 1%N.
+Proof. exact locks_nonvacuous. Qed.
+
+(* Necessity, by explicit interleavings of programs that the check rejects: *)
+(* (a) the writer assigns one field after Unlock: a reader sees a mixture, and the late write races *)
+Theorem C18_write_after_unlock_refuted :
+  locks_ok lay2 w_late = false /\
+  (exists s t, reachable (init [(true, desugar lay2 w_late); (true, desugar lay2 r_good)]) s /\
+               In t (st_ths s) /\ ~ obs_consistent lay2 (t_obs t)) /\
+  (exists s, reachable (init [(true, desugar lay2 w_late); (true, desugar lay2 r_good)]) s /\ race s).
+Proof. exact write_after_unlock_refuted. Qed.
+Print Assumptions C18_write_after_unlock_refuted.
+
+(* (b) a getter that reads without RLock races with the writer *)
+Theorem C18_bare_read_refuted :
+  locks_ok lay2 r_bare = false /\
+  exists s, reachable (init [(true, desugar lay2 w_good); (true, desugar lay2 r_bare)]) s /\ race s.
+Proof. exact bare_read_refuted. Qed.
+Print Assumptions C18_bare_read_refuted.
+
+(* (c) a getter that reads two fields of the group in two separate read sections: no race, but a mixture *)
+Theorem C18_two_read_sections_refuted :
+  locks_ok lay2 r_twice = true /\ well_locked lay2 r_twice = false /\
+  exists s t, reachable (init [(true, desugar lay2 w_good); (true, desugar lay2 r_twice)]) s /\
+              In t (st_ths s) /\ ~ obs_consistent lay2 (t_obs t).
+Proof. exact two_read_sections_refuted. Qed.
+Print Assumptions C18_two_read_sections_refuted.
+
+(* (d) the writer takes the read lock: races with a reader *)
+Theorem C18_rlock_writer_refuted :
+  locks_ok lay2 w_rlock = false /\
+  exists s, reachable (init [(true, desugar lay2 w_rlock); (true, desugar lay2 r_good)]) s /\ race s.
+Proof. exact rlock_writer_refuted. Qed.
+Print Assumptions C18_rlock_writer_refuted.
+
+(* (e) an early return that keeps the read lock: a writer waits for ever and nobody can move *)
+Theorem C18_leaked_lock_refuted :
+  locks_ok lay2 r_leak = false /\
+  exists s, reachable (init [(true, desugar lay2 r_leak); (true, desugar lay2 w_good)]) s /\
+            (exists t, In t (st_ths s) /\ waiting (st_sh s) t) /\
+            forall t', In t' (st_ths s) -> ~ runnable (st_sh s) t'.
+Proof. exact leaked_lock_refuted. Qed.
+Print Assumptions C18_leaked_lock_refuted.
+
+(* (f) the writer replaces the group in two write sections: a reader in between sees a mixture *)
+Theorem C18_split_write_refuted :
+  locks_ok lay2 w_split = false /\
+  exists s t, reachable (init [(true, desugar lay2 w_split); (true, desugar lay2 r_good)]) s /\
+              In t (st_ths s) /\ ~ obs_consistent lay2 (t_obs t).
+Proof. exact split_write_refuted. Qed.
+Print Assumptions C18_split_write_refuted.
